@@ -3,8 +3,8 @@ package signrig
 import (
 	"math/big"
 
-	lk "github.com/lianxiangcloud/linkchain/libs/cryptonote/types"
 	"github.com/lianxiangcloud/linkchain/libs/cryptonote/ringct"
+	lk "github.com/lianxiangcloud/linkchain/libs/cryptonote/types"
 	"github.com/lianxiangcloud/linkchain/libs/cryptonote/xcrypto"
 	"github.com/lianxiangcloud/linkchain/types"
 )
